@@ -73,6 +73,11 @@ pub enum Sym {
     /// (stacked front-end) ensure: a hit marks; a key held only by the read-only level (k1) is promoted, i.e. inserted
     /// fresh and unmarked; a miss everywhere is populated, inserted and then re-opened by the lookup that returns it
     Ensure(u8),
+    /// a set (of value 0) / a put on which the handle's own maintenance fires, through a handle whose capacity is one
+    /// less than the number of entries in the directory (so that the pass has an entry to evict, and re-queues the
+    /// marked ones it meets first)
+    SetMaint(u8),
+    PutMaint(u8),
 }
 
 impl Sym {
@@ -82,7 +87,11 @@ impl Sym {
     fn from_json(v: &Value) -> Sym {
         let s = v.as_str().unwrap();
         let nums: Vec<u8> = s.chars().filter(|c| c.is_ascii_digit() || *c == ',').collect::<String>().split(',').filter(|x| !x.is_empty()).map(|x| x.parse().unwrap()).collect();
-        if s.starts_with("Set") {
+        if s.starts_with("SetMaint") {
+            Sym::SetMaint(nums[0])
+        } else if s.starts_with("PutMaint") {
+            Sym::PutMaint(nums[0])
+        } else if s.starts_with("Set") {
             Sym::Set(nums[0], nums[1])
         } else if s.starts_with("Put") {
             Sym::Put(nums[0])
@@ -111,6 +120,10 @@ fn alphabet(cfg: &Config) -> Vec<Sym> {
         v.push(Sym::Touch(k));
         if cfg.front == 2 {
             v.push(Sym::Ensure(k));
+        }
+        if cfg.init != 4 {
+            v.push(Sym::SetMaint(k));
+            v.push(Sym::PutMaint(k));
         }
     }
     if cfg.init != 4 {
@@ -234,6 +247,10 @@ fn clone_and_prune(live: &Live, name: &str) -> Result<(bool, bool), String> {
     Ok((after.is_some(), after.is_some() && after != before))
 }
 
+fn name_of_key(keys: &[ops::K], k: u8) -> String {
+    keys[k as usize].name.clone()
+}
+
 fn step(live: &mut Live, cfg: &Config, sym: &Sym, rep: &mut Report, check: bool) -> Vec<(String, String)> {
     let mut bad = Vec::new();
     let keys = cfg.keys();
@@ -256,8 +273,24 @@ fn step(live: &mut Live, cfg: &Config, sym: &Sym, rep: &mut Report, check: bool)
                 t,
             )
         }
+        Sym::SetMaint(k) | Sym::PutMaint(k) => {
+            let n = before.len().max(2);
+            let mut scfg = live.scfg.clone();
+            scfg.writer = scfg.writer.map(|(f, _)| (f, if cfg.front == 1 { 2 * (n - 1) } else { n - 1 }));
+            let cache = ops::build(&scfg, &live.dirs, None);
+            let key = keys[*k as usize].clone();
+            let op = if matches!(sym, Sym::SetMaint(_)) { Op::Set(key, set_vals[0]) } else { Op::Put(key, put_val) };
+            let dirs = &live.dirs;
+            let (r, t) = run::as_participant(0, 0, || {
+                run::trigger_fire_next(u64::MAX);
+                run::shard_draws(&[], Some(0));
+                ops::exec(&cache, dirs, &op, &Default::default())
+            });
+            (r.map(|o| o.res), t)
+        }
         _ => {
             let op = match sym {
+                Sym::SetMaint(_) | Sym::PutMaint(_) => unreachable!(),
                 Sym::Set(k, v) => Op::Set(keys[*k as usize].clone(), set_vals[*v as usize]),
                 Sym::Put(k) => Op::Put(keys[*k as usize].clone(), put_val),
                 Sym::GetRead(k) => Op::Get(keys[*k as usize].clone()),
@@ -298,7 +331,43 @@ fn step(live: &mut Live, cfg: &Config, sym: &Sym, rep: &mut Report, check: bool)
     let pos = |model: &Vec<MEntry>, n: &str| model.iter().position(|e| e.name == n);
     let mut marking: Option<String> = None;
     let mut inserting: Option<String> = None;
+    if let Sym::SetMaint(k) | Sym::PutMaint(k) = sym {
+        // maintenance first, then the write's own effect.  Which entries the pass evicted or re-queued is C07's
+        // business; what is checked here is this property's last sentence: after a set, or a put that inserts, the
+        // entry carries the newest queue position in its directory and is not marked.
+        let n = name_of_key(&keys, *k);
+        let inserted = matches!(sym, Sym::SetMaint(_)) || !before.contains_key(&n);
+        if check && inserted {
+            match after.get(&n) {
+                None => bad.push(("entry-set".into(), format!("after {:?} the directory does not hold {}", sym, n))),
+                Some(s) => {
+                    if s.1 >= s.0 {
+                        bad.push(("spurious-mark".into(), format!("after {:?}: the entry just written is marked as read", sym)));
+                    }
+                    for (other, o) in &after {
+                        if other != &n && o.0 > s.0 {
+                            bad.push((
+                                "fresh-entry-not-newest".into(),
+                                format!("after {:?} (maintenance firing on that write): {} was written last but {} carries a newer modification time", sym, n, other),
+                            ));
+                        }
+                    }
+                }
+            }
+        }
+        let mut v: Vec<(i128, String)> = after.iter().map(|(n, s)| (s.0, n.clone())).collect();
+        v.sort();
+        live.model = v
+            .into_iter()
+            .map(|(_, n)| {
+                let s = &after[&n];
+                MEntry { val: world::identify(&s.2).unwrap_or(Val::one(25)), marked: s.1 >= s.0, name: n }
+            })
+            .collect();
+        return bad;
+    }
     match sym {
+        Sym::SetMaint(_) | Sym::PutMaint(_) => unreachable!(),
         Sym::Maintain(_) => {
             // which entries go is C07's business: resynchronise the abstract queue from the directory
             let mut v: Vec<(i128, String)> = after.iter().map(|(n, s)| (s.0, n.clone())).collect();
@@ -765,7 +834,7 @@ fn fault_section(shard: Shard, rep: &mut Report) {
 
 pub fn run(tier: Tier, shard: Shard, rep: &mut Report) {
     rep.rule = "breadth-first search over operation sequences on 2 (3) keys of one directory: {set k A|B, put k C, get k + read to the end, \
-        get k dropped unread, touch k, (stacked) ensure k with k1 also held by the read-only level, maintenance with capacity 0/1/2} x front-end {plain, sharded, stacked} x emulated access-time \
+        get k dropped unread, touch k, (stacked) ensure k with k1 also held by the read-only level, maintenance with capacity 0/1/2, set k / put k through a handle of capacity n-1 whose maintenance fires on that write} x front-end {plain, sharded, stacked} x emulated access-time \
         policy {noatime, relatime, strict} x (timestamp granularity, clock step) in {(1 ns, 1 ms), (1 ns, frozen), (1 s, 0.4 s), (1 s, \
         1.5 s), (2 s, 0.7 s), (2 s, 3 s)}; states deduplicated on (name, value, mtime rank with ties, read mark, clock phase); after every \
         step the directory is compared with an abstract queue (a hit/touch/put-on-existing sets the mark and changes neither mtime nor \
